@@ -19,18 +19,20 @@ The theorems hold for EVERY event script, content, option set and configuration.
 namespace Vinegar.C02
 open Vinegar Vinegar.Tftp
 
-/-- every trace of the OACK + data phases is accepted by the C02 automaton -/
+/-- every trace of the OACK + data phases is accepted by the C02 automaton; it ends in `ended` when
+the phases were aborted and in a quiet state (nothing outstanding) otherwise -/
 theorem c02Check_processRequest (env : Env) (hw : WrapOK env.wrap) (oack : Opts)
     (blocks : List (Option Bytes)) (script : List Ev) :
     ∃ P', runSteps (c02Step env.timeout env.maxRetries) .idle (processRequest env oack blocks 0 script).obs = some P' ∧
       (((processRequest env oack blocks 0 script).out = .gaveUp ∨
         (processRequest env oack blocks 0 script).out = .invalid ∨
-        (processRequest env oack blocks 0 script).out = .peerError) → P' = .ended) := by
+        (processRequest env oack blocks 0 script).out = .peerError) → P' = .ended) ∧
+      (((processRequest env oack blocks 0 script).out = .completed ∨
+        (processRequest env oack blocks 0 script).out = .overflow ∨
+        (processRequest env oack blocks 0 script).out = .readFault) → Quiet P') := by
   unfold processRequest
   split
-  · obtain ⟨P', h1, h2, _⟩ := sendData_run env.timeout env.maxRetries env rfl rfl hw blocks 0 0 script .idle
-      (by decide) (Or.inl rfl)
-    exact ⟨P', h1, h2⟩
+  · exact sendData_run env.timeout env.maxRetries env rfl rfl hw blocks 0 0 script .idle (by decide) (Or.inl rfl)
   · have hS := sendWithRetry_run env.timeout env.maxRetries env rfl (oackPacket oack) 0
       (isFlow_oackPacket oack) (expectOf_oackPacket oack) (env.maxRetries + 1) 0 0 script .idle (by omega)
       (by omega) (fun _ => by simp [c02Step, isFlow_oackPacket, expectOf_oackPacket, sent])
@@ -44,12 +46,13 @@ theorem c02Check_processRequest (env : Env) (hw : WrapOK env.wrap) (oack : Opts)
         intro m b' _
         rw [hpk]
         exact (dataPacket_ne_oackPacket m b' oack).symm
-      obtain ⟨P', h1, h2, _⟩ := sendData_run env.timeout env.maxRetries env rfl rfl hw blocks 0 r.now r.rest
+      obtain ⟨P', h1, h2, h3⟩ := sendData_run env.timeout env.maxRetries env rfl rfl hw blocks 0 r.now r.rest
         (.flow c') (by decide) hr'
-      exact ⟨P', by simp only [Res.pre_obs, runSteps_append, hrun, Option.bind_some, h1], by simpa using h2⟩
-    | gaveUp => simp only [hout]; exact ⟨.ended, hS.2 (by simp [hout]), fun _ => rfl⟩
-    | invalid => simp only [hout]; exact ⟨.ended, hS.2 (by simp [hout]), fun _ => rfl⟩
-    | peerError => simp only [hout]; exact ⟨.ended, hS.2 (by simp [hout]), fun _ => rfl⟩
+      exact ⟨P', by simp only [Res.pre_obs, runSteps_append, hrun, Option.bind_some, h1], by simpa using h2,
+        by simpa using h3⟩
+    | gaveUp => simp only [hout]; exact ⟨.ended, hS.2 (by simp [hout]), fun _ => rfl, by simp⟩
+    | invalid => simp only [hout]; exact ⟨.ended, hS.2 (by simp [hout]), fun _ => rfl, by simp⟩
+    | peerError => simp only [hout]; exact ⟨.ended, hS.2 (by simp [hout]), fun _ => rfl, by simp⟩
 
 theorem step_nonflow_send (T R : Nat) (P : Phase) (t : Nat) (p : Bytes) (h : isFlow p = false) :
     c02Step T R P (.send t 0 p) = some .ended := by
@@ -74,7 +77,7 @@ theorem c02Check_runTransfer (cfg : Cfg) (hw : WrapOK cfg.wrap) (rrq : Rrq) (h :
     simp [runSteps, c02Step, herr]
   | stream content caps sizeKnown faultAt =>
     simp only
-    obtain ⟨P', h1, _⟩ := c02Check_processRequest (envOf cfg rrq (.stream content caps sizeKnown faultAt)) hw
+    obtain ⟨P', h1, _, _⟩ := c02Check_processRequest (envOf cfg rrq (.stream content caps sizeKnown faultAt)) hw
       (negOf cfg rrq (.stream content caps sizeKnown faultAt)).oack
       (blockReads rrq.netascii (negOf cfg rrq (.stream content caps sizeKnown faultAt)).blockSize content caps faultAt) script
     have h1' : runSteps (c02Step (negOf cfg rrq (.stream content caps sizeKnown faultAt)).timeout cfg.maxRetries)
